@@ -20,7 +20,7 @@ ASSUME_STORE = [
 REAL_VS_STUB = {
     'storesim': {'real': ['taskchain (from $TCSIM_REPO/src; for C12 also the frozen 1.4.0 copy)', 'orjson', 'yaml', 'numpy', 'pandas', 'networkx', 'logging', 'tmpfs file system', 'process death (os._exit of a forked interpreter)'],
                  'stub': ['tqdm bars', 'datetime in taskchain.task (simulated clock)', 'run bodies of the generated tasks', 'builtins.open / io.open (pass-through; only the one file a short-write / close-error / interrupt-inside-write fault targets is wrapped)'], 'excluded': ['FigureData', 'H5Data dataset I/O', 'Chain.draw']},
-    'cachesim': {'real': ['taskchain.cache', 'filelock', 'orjson', 'numpy', 'pandas', 'tmpfs file system'], 'stub': ['computers / cached method bodies (generated)'], 'excluded': []},
+    'cachesim': {'real': ['taskchain.cache', 'filelock', 'orjson', 'numpy', 'pandas', 'tmpfs file system', 'process death inside a write (forked caller killed by the kernel: SIGXFSZ under RLIMIT_FSIZE)'], 'stub': ['computers / cached method bodies (generated)'], 'excluded': []},
     'schedsim': {'real': ['taskchain.cache', 'filelock (flock)', 'orjson', 'numpy', 'pandas', 'threads', 'tmpfs file system'],
                  'stub': ['time.sleep (lock poll -> yield, advances the simulated clock)', 'time.perf_counter / time.monotonic (simulated clock for lock deadlines, client threads only)', 'open() for files written under the cache directory (chunking proxy over the real file)', 'thread scheduling (baton)'], 'excluded': []},
     'pmapsim': {'real': ['taskchain.utils.threading / utils.iter', 'concurrent.futures.ThreadPoolExecutor', 'asyncio event loop'],
@@ -59,7 +59,7 @@ prop('C02', engine='storesim', profiles={'quick': [('c02', 2400), ('c02zone', 16
 prop('C04', engine='storesim', profiles={'quick': [('c04', 2400)], 'thorough': [('c04', 60000)]}, level='exploration',
      nontrivial=lambda r: r['stats'].get('loads', 0) + r['stats'].get('mem_hits', 0) > 0,
      rule='fault-free, force-free histories of constructions (several roots, renderings, name mode in its own directory), requests, every kind of '
-          'inspection, restarts; observed run invocations vs model prediction; non-trivial = some request was served without running')
+          'inspection, restarts, a second simulated process computing on the store while the first one stays alive (parked at a wait operation); observed run invocations vs model prediction; non-trivial = some request was served without running')
 prop('C06', engine='storesim', profiles={'quick': [('c06', 1600)], 'thorough': [('c06', 40000)]}, level='exploration',
      nontrivial=lambda r: r['stats'].get('loads', 0) > 0,
      rule='compute in one simulated process, load in another (other hash seed); canonical type-strict comparison of returned vs loaded vs expected; '
@@ -67,7 +67,7 @@ prop('C06', engine='storesim', profiles={'quick': [('c06', 1600)], 'thorough': [
 prop('C07', engine='storesim', profiles={'quick': [('c07', 2400)], 'thorough': [('c07', 60000)]}, level='exploration',
      nontrivial=lambda r: r['stats'].get('forced_runs', 0) > 0,
      rule='force-heavy histories: Task.force/Chain.force with all flag combinations on arbitrary task sets and store states, arbitrary later requests; '
-          'flags, has_data and run invocations vs model; non-trivial = at least one forced task actually re-ran')
+          'revisions of an external resource changed before forcing (the recomputed value differs from the stored one); flags, has_data, run invocations and values vs model; non-trivial = at least one forced task actually re-ran')
 
 
 prop('C18', engine='storesim', profiles={'quick': [('c18', 2400), ('c18zone', 120)], 'thorough': [('c18', 60000), ('c18zone', 1500)]}, level='exploration',
@@ -100,7 +100,7 @@ prop('C14', engine='cachesim', profiles={'quick': [('c14', 20000)], 'thorough': 
      nontrivial=lambda r: bool(r['stats'].get('fired')) and r['stats'].get('hits', 0) > 0,
      assumptions_override=ASSUME_CACHE,
      rule='seeded histories of get / get_or_compute / force / sub-cache navigation / restart over Json(allow_nones both ways), Numpy, DataFrame and '
-          'InMemory caches with raising computers, truncated/empty/garbage/removed/misdirected cache files, judged against a dictionary model; '
+          'InMemory caches with raising computers, truncated/empty/garbage/removed/misdirected cache files, writers killed inside their write (forked caller, RLIMIT_FSIZE), forced recomputations returning ==-equal retyped or same-size values, judged against a dictionary model; '
           'non-trivial = at least one fault or restart happened and at least one hit was served; distinct = scenario digest')
 prop('C16', engine='cachesim', profiles={'quick': [('c16', 20000)], 'thorough': [('c16', 600000)]}, level='exploration',
      nontrivial=lambda r: r['stats'].get('hits_other_spelling', 0) > 0,
